@@ -552,3 +552,120 @@ func TestVF_C04(t *testing.T) {
 	kit.Drive(t, "C04", "TestVF_C04", vfRecDomain+"Oracle: the storage check is made at a frame iff no recording is active, the frame has motion, the motion run since the last still frame / recording end is >= max(trigger-frames,1) and the window (closed form start<=tod<end mod 24h) is open; StartRecording follows iff the check passed; a recording starts iff both succeeded; never on a motionless frame. Non-trivial: at least one refused start (window/check/start) and one successful start, with a window edge inside a motion run or a storage refusal.",
 		vfGenRec(vfOptC04), vfRunRecProp(4))
 }
+
+// ---------------------------------------------------------------------------------------------
+// The complete reference model (kit.RunModel) against the real processor: every motion recording,
+// frame for frame. Part of C01's check; also validates the model used by the end-to-end checks.
+
+func vfModelEvents(c vfRecCase, run *vfRecRun) []kit.MEvent {
+	evs := make([]kit.MEvent, len(c.Ev))
+	for i, e := range c.Ev {
+		k := kit.MEvFrame
+		switch e.K {
+		case vfEvBad:
+			k = kit.MEvBad
+		case vfEvReset:
+			k = kit.MEvReset
+		case vfEvTest:
+			k = kit.MEvTest
+		case vfEvNop:
+			k = -1
+		}
+		evs[i] = kit.MEvent{Kind: k, Motion: run.tr.motion[i], WinOpen: vfWindowActive(c.Cfg, e)}
+	}
+	return evs
+}
+
+func vfModelConfig(c vfRecCase) kit.MConfig {
+	g := c.Cfg
+	checks, starts := 0, 0
+	failSet := func(l []int) map[int]bool {
+		m := map[int]bool{}
+		for _, i := range l {
+			m[i] = true
+		}
+		return m
+	}
+	cf, sf := failSet(c.Faults.Check), failSet(c.Faults.MStart)
+	return kit.MConfig{
+		PreTrigger: g.Preview*g.FPS + g.Trigger - 1, Trigger: g.Trigger, MinFrames: g.Min * g.FPS, MaxFrames: g.Max * g.FPS, Continuous: g.Cont,
+		Check: func() bool { checks++; return !cf[checks-1] },
+		Start: func() bool { starts++; return !sf[starts-1] },
+	}
+}
+
+func vfRecIDs(recs []kit.MRecording) string {
+	s := ""
+	for _, r := range recs {
+		s += fmt.Sprint(r.IDs)
+		if r.Open {
+			s += "(open)"
+		}
+		s += " "
+	}
+	return s
+}
+
+func vfRunModelAgrees(c vfRecCase) *kit.Result {
+	r := &kit.Result{}
+	if msg := vfValidRecCase(c); msg != "" {
+		r.Failf("malformed case: %s", msg)
+		return r
+	}
+	run := vfDrive(c, nil)
+	if run.panicked != "" {
+		r.Failf("%s", run.panicked)
+		return r
+	}
+	a := vfAnalyse(c, run)
+	if a.protoEr != "" {
+		r.Failf("%s", a.protoEr)
+		return r
+	}
+	want := kit.RunModel(vfModelConfig(c), vfModelEvents(c, run))
+	var got []kit.MRecording
+	for _, rec := range a.recs {
+		got = append(got, kit.MRecording{IDs: rec.IDs, Open: rec.StopEv < 0})
+	}
+	if vfRecIDs(got) != vfRecIDs(want.Motion) {
+		r.Failf("motion recordings differ from the reference model:\n   got: %s\n  want: %s\n  trace:%s", vfRecIDs(got), vfRecIDs(want.Motion), vfTraceString(run.tr, 80))
+		return r
+	}
+	if c.Cfg.Cont {
+		crecs, msg := vfBrackets(run.tr, 'c')
+		if msg != "" {
+			r.Failf("%s", msg)
+			return r
+		}
+		var gc []kit.MRecording
+		for _, rec := range crecs {
+			gc = append(gc, kit.MRecording{IDs: rec.IDs, Open: rec.StopEv < 0})
+		}
+		if vfRecIDs(gc) != vfRecIDs(want.Continuous) {
+			r.Failf("continuous recordings differ from the reference model:\n   got: %s\n  want: %s", vfRecIDs(gc), vfRecIDs(want.Continuous))
+			return r
+		}
+	}
+	trecs, msg := vfBrackets(run.tr, 't')
+	if msg != "" {
+		r.Failf("%s", msg)
+		return r
+	}
+	var gt []kit.MRecording
+	for _, rec := range trecs {
+		gt = append(gt, kit.MRecording{IDs: rec.IDs, Open: rec.StopEv < 0})
+	}
+	if vfRecIDs(gt) != vfRecIDs(want.Test) {
+		r.Failf("test recordings differ from the reference model:\n   got: %s\n  want: %s", vfRecIDs(gt), vfRecIDs(want.Test))
+		return r
+	}
+	n1, _, _, _ := a.classify(r)
+	r.NT = n1
+	return r
+}
+
+func TestVF_C01_Model(t *testing.T) {
+	o := vfRecGenOpt{bad: true, reset: true, test: true, faultsCheckStart: true, window: true, maxEv: 300, cont: 1, variants: true}
+	kit.Drive(t, "C01", "TestVF_C01_Model", vfRecDomain+"Oracle: the complete reference model of the recording behaviour (written from the statements of C01-C04, C13, C17) fed with the reported motion bits, the closed-form window and the refusal plan predicts every motion, continuous and test recording frame for frame. Non-trivial as in TestVF_C01.",
+		vfGenRec(o), vfRunModelAgrees)
+}
